@@ -385,12 +385,14 @@ class TileCreator(object):
             created_tiles = self._create_meta_tile(meta_tile)
         else:
             meta_tiles = []
-            meta_bboxes = set()
+            main_tiles = set()
             for tile in tiles:
-                meta_tile = self.meta_grid.meta_tile(tile.coord)
-                if meta_tile.bbox not in meta_bboxes:
-                    meta_tiles.append(meta_tile)
-                    meta_bboxes.add(meta_tile.bbox)
+                # identify meta tiles by their main tile: different meta tiles can have
+                # the same bbox once the meta_buffer is limited to the grid bbox
+                main_tile = self.meta_grid.main_tile(tile.coord)
+                if main_tile not in main_tiles:
+                    meta_tiles.append(self.meta_grid.meta_tile(tile.coord))
+                    main_tiles.add(main_tile)
 
             created_tiles = self._create_meta_tiles(meta_tiles)
 
